@@ -54,6 +54,7 @@ type Gen struct {
 	Colls int
 	Bkts  int
 	Hnd   int
+	BadJSON int // if > 0, one in BadJSON xattr-setting ops carries an unparseable xattr value
 	n     int
 }
 
@@ -271,6 +272,8 @@ func (g *Gen) Make(kind string) Op {
 				o.Body = []byte(`"v` + g.uniq() + `"`)
 			}
 		}
+	case KGetSub:
+		o.Path = rng.Pick(g.R, subdocPaths)
 	case KPurge, KDropColl:
 	}
 	return o
@@ -327,7 +330,7 @@ func (p Profile) pick(r *rng.R) string {
 			kinds = append(kinds, k)
 		}
 	}
-	for _, k := range []string{KPurge, KDropColl} {
+	for _, k := range []string{KPurge, KDropColl, KGetSub} {
 		if p[k] > 0 {
 			kinds = append(kinds, k)
 		}
@@ -361,7 +364,14 @@ func (p Profile) With(kv ...any) Profile {
 
 // Random returns a placed random op drawn from the profile.
 func (g *Gen) Random(p Profile) Op {
-	return g.place(g.Make(p.pick(g.R)))
+	o := g.Make(p.pick(g.R))
+	if g.BadJSON > 0 && len(o.X) > 0 && g.R.Chance(1, g.BadJSON) {
+		switch o.Kind {
+		case KSetX, KUpdateX, KWriteWX, KWriteTomb, KWriteRes, KWriteUpd:
+			o.BadJSONX = true
+		}
+	}
+	return g.place(o)
 }
 
 // ---------------------------------------------------------------- bounded-exhaustive catalogue
